@@ -69,7 +69,7 @@ func (c *Cast) GetMaxInputs() int {
 func (c *Cast) GetInputTypeConstraints() [][]tensor.Dtype {
 	return [][]tensor.Dtype{
 		{
-			tensor.Int16, tensor.Uint16, tensor.Int32, tensor.Uint32, tensor.Int64, tensor.Uint64,
+			tensor.Int8, tensor.Uint8, tensor.Int16, tensor.Uint16, tensor.Int32, tensor.Uint32, tensor.Int64, tensor.Uint64,
 			tensor.Float32, tensor.Float64,
 		},
 	}
